@@ -29,6 +29,15 @@ type CtxIface interface {
 
 var poolErr error = errors.New("pool error")
 
+// error values that are not nil although "nothing" is in them
+type c14PtrErr struct{}
+
+func (*c14PtrErr) Error() string { return "typed nil pointer" }
+
+type c14MapErr map[string]int
+
+func (c14MapErr) Error() string { return "nil map" }
+
 type val struct {
 	T string          `json:"t"`
 	V json.RawMessage `json:"v,omitempty"`
@@ -94,6 +103,16 @@ func toVal(x interface{}) val {
 		return val{T: "ctx", V: mustJSON("other")}
 	}
 	return val{T: "unknown:" + fmt.Sprintf("%T", x)}
+}
+
+// errorsIdentical: the very same error value came back (comparable dynamic types only)
+func errorsIdentical(a, b error) (same bool) {
+	defer func() {
+		if recover() != nil {
+			same = false
+		}
+	}()
+	return a == b
 }
 
 func mustJSON(x interface{}) json.RawMessage {
@@ -229,7 +248,7 @@ func doF(target interface{}, args []interface{}) (res fRes) {
 		switch {
 		case err == nil:
 			rr.Err = "nil"
-		case err == poolErr:
+		case poolErr != nil && reflect.TypeOf(err) == reflect.TypeOf(poolErr) && fmt.Sprintf("%p", err) == fmt.Sprintf("%p", poolErr) || errorsIdentical(err, poolErr):
 			rr.Err = "pool"
 		default:
 			rr.Err = "other:" + err.Error()
@@ -287,9 +306,16 @@ func main() {
 		var ans interface{}
 		switch r.Op {
 		case "F":
-			if r.ErrMode == "nil" {
+			switch r.ErrMode {
+			case "nil":
 				poolErr = nil
-			} else {
+			case "typednil":
+				poolErr = (*c14PtrErr)(nil) // a non-nil error whose dynamic value is a nil pointer
+			case "nilmap":
+				poolErr = c14MapErr(nil) // ... a nil map
+			case "empty":
+				poolErr = errors.New("") // a non-nil error with an empty message
+			default:
 				poolErr = errors.New("pool error")
 			}
 			var target interface{}
